@@ -30,7 +30,7 @@ type encSpec struct {
 	K    int    `json:"k"`
 	Odd  bool   `json:"odd"`
 	Arch int    `json:"arch"`
-	Str  string `json:"str"` // every string field of every message is set to this value
+	Str  string `json:"str"`  // every string field of every message is set to this value
 	High int    `json:"high"` // > 0: an activity file with one session message that sets only the struct field of this index
 }
 
